@@ -21,3 +21,43 @@ func H_pool_reuse() {
 	symx.Assert(c != a && c.n == 0, "empty pool calls New")
 	symx.Reach("end")
 }
+
+// H_select_rendezvous: the engine's channel model lets a parked select meet another select (or a
+// plain operation) on an unbuffered channel, chooses among ready cases nondeterministically, and
+// wakes parked selects on close.
+func H_select_rendezvous() {
+	ch := make(chan int)
+	done := make(chan struct{})
+	got := make(chan int, 2)
+	var wg sync.WaitGroup
+	wg.Add(2)
+	go func() { // sender: value or give up when done is closed
+		defer wg.Done()
+		select {
+		case ch <- 7:
+			got <- 1
+		case <-done:
+			got <- 2
+		}
+	}()
+	go func() { // receiver
+		defer wg.Done()
+		select {
+		case v := <-ch:
+			symx.Assert(v == 7, "select receives the value the other select sent")
+			got <- 10
+		case <-done:
+			got <- 20
+		}
+	}()
+	if symx.Choose("close", 2) == 1 {
+		close(done)
+	}
+	wg.Wait()
+	a, b := <-got, <-got
+	sum := a + b
+	// either the two selects met (1 + 10), or done woke both (2 + 20), or one side saw done after
+	// the other... which is impossible without its partner: the only other outcomes need close
+	symx.Assert(sum == 11 || sum == 22, "both selects complete consistently")
+	symx.Reach("end")
+}
